@@ -158,21 +158,44 @@ func c08Rules(p *Program, r *Report) {
 					continue
 				}
 				f := c.Call.StaticCallee()
-				if f == nil || f.String() != "encoding/binary.Read" || len(c.Call.Args) != 3 {
+				if f == nil {
 					continue
 				}
-				cell := prefixCell(c.Call.Args[2])
-				if cell == nil {
-					continue
+				// the prefix is either a cell filled by binary.Read or the result of
+				// binary.*Endian.UintN over bytes read with io.ReadFull
+				var cell *ssa.Alloc
+				var prefixCall ssa.Value
+				label := ""
+				switch {
+				case f.String() == "encoding/binary.Read" && len(c.Call.Args) == 3:
+					cell = prefixCell(c.Call.Args[2])
+					if cell == nil {
+						continue
+					}
+					label = cell.Comment
+				default:
+					if _, ok := sizedFromPrefix(c); ok && strings.HasPrefix(f.String(), "(encoding/binary.") {
+						prefixCall = c
+						label = "length"
+					} else {
+						continue
+					}
 				}
-				key := fnKey(fn) + " prefix " + cell.Comment
+				isPrefix := func(v ssa.Value) bool {
+					if prefixCall != nil {
+						return v == prefixCall
+					}
+					u, ok := v.(*ssa.UnOp)
+					return ok && u.Op == token.MUL && u.X == ssa.Value(cell)
+				}
+				key := fnKey(fn) + " prefix " + label
 				// used: some load of the cell reaches a MakeSlice length
 				used := false
 				for _, bb := range fn.Blocks {
 					for _, in2 := range bb.Instrs {
 						if ms, ok := in2.(*ssa.MakeSlice); ok {
 							base, _ := mulForm(ms.Len)
-							if u, ok := base.(*ssa.UnOp); ok && u.Op == token.MUL && u.X == ssa.Value(cell) {
+							if isPrefix(base) {
 								used = true
 							}
 						}
@@ -198,8 +221,7 @@ func c08Rules(p *Program, r *Report) {
 						}
 						for _, pair := range [][2]ssa.Value{{bo.X, bo.Y}, {bo.Y, bo.X}} {
 							pb, _ := mulForm(pair[0])
-							u, ok := pb.(*ssa.UnOp)
-							if !ok || u.Op != token.MUL || u.X != ssa.Value(cell) {
+							if !isPrefix(pb) {
 								continue
 							}
 							ob, k := mulForm(pair[1])
@@ -266,6 +288,44 @@ func sizedFromPrefix(n ssa.Value) (string, bool) {
 		if c, ok := x.Tuple.(*ssa.Call); ok {
 			if f := c.Call.StaticCallee(); f != nil && f.Pkg != nil && shortPkg(f.Pkg.Pkg) == "primitive" && strings.HasPrefix(f.Name(), "Read") {
 				return "primitive." + f.Name(), true
+			}
+		}
+	case *ssa.Call:
+		// binary.BigEndian.UintN(buf) with buf filled from the wire by io.ReadFull
+		if f := x.Call.StaticCallee(); f != nil && strings.HasPrefix(f.String(), "(encoding/binary.") && strings.HasPrefix(f.Name(), "Uint") && len(x.Call.Args) == 2 {
+			buf := x.Call.Args[1]
+			roots := []ssa.Value{buf}
+			if sl, ok := buf.(*ssa.Slice); ok {
+				roots = append(roots, sl.X)
+			}
+			for _, root := range roots {
+				for _, ref := range *root.Referrers() {
+					check := func(v ssa.Value) bool {
+						for _, r2 := range *v.Referrers() {
+							if c, ok := r2.(*ssa.Call); ok {
+								if g := c.Call.StaticCallee(); g != nil && (g.String() == "io.ReadFull" || g.String() == "io.ReadAtLeast") {
+									return true
+								}
+							}
+						}
+						return false
+					}
+					if sl, ok := ref.(*ssa.Slice); ok && check(sl) {
+						return "io.ReadFull + " + f.Name(), true
+					}
+				}
+				if func() bool {
+					for _, r2 := range *root.Referrers() {
+						if c, ok := r2.(*ssa.Call); ok {
+							if g := c.Call.StaticCallee(); g != nil && (g.String() == "io.ReadFull" || g.String() == "io.ReadAtLeast") {
+								return true
+							}
+						}
+					}
+					return false
+				}() {
+					return "io.ReadFull + " + f.Name(), true
+				}
 			}
 		}
 	}
